@@ -179,6 +179,16 @@ let stream_script (total : int) (toks : string list) : sev list =
 
 let with_async = Array.length Sys.argv > 1 && Sys.argv.(1) = "async"
 
+(* a segment tF<k>: also run SymbolFile::parse over a reader whose k-th read() call fails (C10/ReadFail.v) *)
+let fail_tag (line : string) : int option =
+  let data = match String.index_opt line '|' with Some i -> String.sub line 0 i | None -> line in
+  List.fold_left (fun acc t ->
+      match acc with
+      | Some _ -> acc
+      | None ->
+        if String.length t > 2 && String.sub t 0 2 = "tF" then int_of_string_opt (String.sub t 2 (String.length t - 2)) else None)
+    None (split_ws data)
+
 let () =
   try
     while true do
@@ -210,10 +220,17 @@ let () =
               (string_of_z (tr_hash atr)) (string_of_z (tr_events atr))
               (match o_table ao with Some t -> render_table t | None -> "-")
           end in
-        Printf.printf "R=%s;cb=%s,%s;nr=%s;ms=%s;ev=%s,%s;T=%s%s;;cap=%s;dropped=%s;S=%s;ST=%s;X=%s,%s,%s,%s,%s,%s;K=%s;EK=%s\n"
+        let rf_part = match fail_tag line with
+          | None -> ""
+          | Some k ->
+            let fo = run_rfail zlines ztail zs (z_of_int k) in
+            Printf.sprintf ";F=%s;fcb=%s,%s;fnr=%s;FT=%s"
+              (cls (o_kind fo) (o_code fo) (o_line fo)) (string_of_z (o_cb fo)) (string_of_z (o_ncb fo)) (string_of_z (o_nrd fo))
+              (match o_table fo with Some t -> render_table t | None -> "-") in
+        Printf.printf "R=%s;cb=%s,%s;nr=%s;ms=%s;ev=%s,%s;T=%s%s%s;;cap=%s;dropped=%s;S=%s;ST=%s;X=%s,%s,%s,%s,%s,%s;K=%s;EK=%s\n"
           (cls (o_kind o) (o_code o) (o_line o))
           (string_of_z (o_cb o)) (string_of_z (o_ncb o)) (string_of_z (o_nrd o)) (string_of_z (o_maxsp o))
-          (string_of_z (tr_hash tr)) (string_of_z (tr_events tr)) t async_part
+          (string_of_z (tr_hash tr)) (string_of_z (tr_events tr)) t async_part rf_part
           (string_of_z (o_cap o)) (string_of_z (o_dropped o))
           (cls (o_skind o) (o_scode o) (o_sline o)) st
           (string_of_z (tr_grows tr)) (string_of_z (tr_shifts tr)) (string_of_z (tr_discards tr))
